@@ -59,13 +59,22 @@ func cost(m CostModel, p vsched.Point) int {
 	return 0
 }
 
-// Watch guards one execution with a wall-clock watchdog: a hang is an engine
-// error (exit 3 with stacks), never a violation.
+// OnHang, when set (worker processes), is called instead of exiting when the watchdog fires: the worker
+// reports the hang as a violation of the case being run, writes the results it has and ends.
+var OnHang func(what, stacks string)
+
+// Watch guards one execution with a wall-clock watchdog. The code under test never finishing one
+// execution within the (generous) limit is reported as a violation by worker processes (the rest of the
+// shard's cases are lost: exhaustive=false); elsewhere it is an engine error (exit 3 with stacks).
 func Watch(what string, d time.Duration) *time.Timer {
 	return time.AfterFunc(d, func() {
-		fmt.Fprintln(os.Stderr, "ENGINE-ERROR: execution hung:", what)
 		buf := make([]byte, 1<<20)
 		n := runtime.Stack(buf, true)
+		if OnHang != nil {
+			OnHang(what, string(buf[:n]))
+			return
+		}
+		fmt.Fprintln(os.Stderr, "ENGINE-ERROR: execution hung:", what)
 		os.Stderr.Write(buf[:n])
 		os.Exit(3)
 	})
